@@ -73,47 +73,47 @@ var c07BoundsReasons = map[string]struct {
 	n      int
 	reason string
 }{
-	"css/parser.AtKeyword.serializeTo":      {1, "an at-keyword token always has a non-empty name: the tokenizer only builds it after isIdentStart"},
-	"css/parser.Dimension.serializeTo":      {1, "a dimension token always has a non-empty unit: the tokenizer only builds it when an identifier follows the number"},
-	"css/parser.FunctionBlock.serializeTo":  {2, "a function name is a non-empty identifier; the loop reads fn.Arguments[len-1] after breaking on len(fn.Arguments) == 0 (the two loads of the field are not connected by the value numbering)"},
-	"css/parser.Hash.serializeTo":           {1, "a hash token with the identifier flag has a non-empty name"},
-	"css/parser.Ident.serializeTo":          {1, "an ident token is never empty: the tokenizer only builds it after isIdentStart and module code only builds idents from non-empty constants"},
-	"css/parser.ParseNth":                   {2, "ident is the value of an ident token, never empty (see Ident.serializeTo)"},
-	"css/parser.parseB":                     {1, "Number.Value is the matched numeric text, at least one character (numberRe has no empty match)"},
-	"css/parser.parseSignlessB":             {1, "Number.Value is the matched numeric text, at least one character"},
-	"css/validation.PreprocessDeclarations": {1, "PreprocessDeclarationsPrelude called with a nil prelude cannot fail (the only error returns are under prelude != nil) and its success return appends one element"},
-	"css/validation._borderRadius":          {9, "reads through the pointer `values` are each inside the branch that tested len(*values) == 1, 2 or 3 on the same pointer; pointer-to-slice loads are not value-numbered"},
-	"css/validation._expandFlexFlow":        {4, "sortedTokens ranges over {tokens, reverse(tokens)} under len(tokens) == 2; reverse returns a slice of the same length"},
-	"css/validation.checkCounterFunction":   {2, "the second argument is read only when name == counters, which the enclosing test admits with 2 or 3 arguments only: one is left after the first reslice"},
-	"css/validation.expandBackground$1":     {9, "InitialValues.GetBackground*() are one-element literals (checked by rule C07.R1b); the second pop follows _box(nextToken) != \"\", which needs nextToken (the last element of tokens) to hold one token"},
+	"css/parser.AtKeyword.serializeTo":       {1, "an at-keyword token always has a non-empty name: the tokenizer only builds it after isIdentStart"},
+	"css/parser.Dimension.serializeTo":       {1, "a dimension token always has a non-empty unit: the tokenizer only builds it when an identifier follows the number"},
+	"css/parser.FunctionBlock.serializeTo":   {2, "a function name is a non-empty identifier; the loop reads fn.Arguments[len-1] after breaking on len(fn.Arguments) == 0 (the two loads of the field are not connected by the value numbering)"},
+	"css/parser.Hash.serializeTo":            {1, "a hash token with the identifier flag has a non-empty name"},
+	"css/parser.Ident.serializeTo":           {1, "an ident token is never empty: the tokenizer only builds it after isIdentStart and module code only builds idents from non-empty constants"},
+	"css/parser.ParseNth":                    {2, "ident is the value of an ident token, never empty (see Ident.serializeTo)"},
+	"css/parser.parseB":                      {1, "Number.Value is the matched numeric text, at least one character (numberRe has no empty match)"},
+	"css/parser.parseSignlessB":              {1, "Number.Value is the matched numeric text, at least one character"},
+	"css/validation.PreprocessDeclarations":  {1, "PreprocessDeclarationsPrelude called with a nil prelude cannot fail (the only error returns are under prelude != nil) and its success return appends one element"},
+	"css/validation._borderRadius":           {9, "reads through the pointer `values` are each inside the branch that tested len(*values) == 1, 2 or 3 on the same pointer; pointer-to-slice loads are not value-numbered"},
+	"css/validation._expandFlexFlow":         {4, "sortedTokens ranges over {tokens, reverse(tokens)} under len(tokens) == 2; reverse returns a slice of the same length"},
+	"css/validation.checkCounterFunction":    {2, "the second argument is read only when name == counters, which the enclosing test admits with 2 or 3 arguments only: one is left after the first reslice"},
+	"css/validation.expandBackground$1":      {9, "InitialValues.GetBackground*() are one-element literals (checked by rule C07.R1b); the second pop follows _box(nextToken) != \"\", which needs nextToken (the last element of tokens) to hold one token"},
 	"css/validation.expandGridColumnRowArea": {4, "validations is appended once per element of gridLines, whose length is tested to be >= 1 before; validations[1] is read under lines > 1 or after the append that duplicates entry 0"},
-	"css/validation.getTarget":              {2, "the separator argument is read only for target-counters, admitted with 3 or 4 arguments: two are left after the first reslice"},
-	"css/validation.gridTemplateAreas":      {1, "tokens is non-empty (validator precondition, C07.R5) and every iteration either returns nil or appends a row, so gridAreas has at least one row here"},
-	"html/tree.resolveVar":                  {2, "reached only after validation.HasVar(token) returned true, which for a var() block requires a first argument (rule C07.R3 checks that dependency)"},
-	"svg.(*pathParser).addArcFromA":         {1, "called from addSeg under hasSetsOrMore(7, …) with 7-element chunks of c.points"},
-	"svg.(*pathParser).addSeg":              {17, "every read of c.points[…] is in a case of the command switch that first returned unless hasSetsOrMore(n, …) holds with n at least the largest offset read (arity table checked by rule C18.R1); the field is re-read so the facts do not connect"},
-	"svg.(*pathParser).parsePath":           {2, "segments are data[lastIndex:i] with lastIndex < i (lastIndex is the index of an earlier iteration) and data[lastIndex:] with lastIndex a valid index: never empty"},
-	"svg.(*pathParser).pointsToAbs":         {2, "called with sz >= 1 (constants 1, 2, 4, 6 at the call sites), so (j+sz)-1 and (j+sz)-2 with sz >= 2 are >= 0; upper bounds are the variable-index class, not decided"},
-	"svg.consumeNumber":                     {2, "pos was incremented past the first byte before the loop, so pos-1 >= 0"},
-	"utils.(*HTMLIterator).popNode":         {2, "only called from Next after HasNext reported a non-empty stack (iterator protocol)"},
-	"utils.DefaultUrlFetcher":               {1, "the URL starts with data: (tested case-insensitively just before); removing white space cannot shorten that 5-byte prefix, which contains none"},
+	"css/validation.getTarget":               {2, "the separator argument is read only for target-counters, admitted with 3 or 4 arguments: two are left after the first reslice"},
+	"css/validation.gridTemplateAreas":       {1, "tokens is non-empty (validator precondition, C07.R5) and every iteration either returns nil or appends a row, so gridAreas has at least one row here"},
+	"html/tree.resolveVar":                   {2, "reached only after validation.HasVar(token) returned true, which for a var() block requires a first argument (rule C07.R3 checks that dependency)"},
+	"svg.(*pathParser).addArcFromA":          {1, "called from addSeg under hasSetsOrMore(7, …) with 7-element chunks of c.points"},
+	"svg.(*pathParser).addSeg":               {17, "every read of c.points[…] is in a case of the command switch that first returned unless hasSetsOrMore(n, …) holds with n at least the largest offset read (arity table checked by rule C18.R1); the field is re-read so the facts do not connect"},
+	"svg.(*pathParser).parsePath":            {2, "segments are data[lastIndex:i] with lastIndex < i (lastIndex is the index of an earlier iteration) and data[lastIndex:] with lastIndex a valid index: never empty"},
+	"svg.(*pathParser).pointsToAbs":          {2, "called with sz >= 1 (constants 1, 2, 4, 6 at the call sites), so (j+sz)-1 and (j+sz)-2 with sz >= 2 are >= 0; upper bounds are the variable-index class, not decided"},
+	"svg.consumeNumber":                      {2, "pos was incremented past the first byte before the loop, so pos-1 >= 0"},
+	"utils.(*HTMLIterator).popNode":          {2, "only called from Next after HasNext reported a non-empty stack (iterator protocol)"},
+	"utils.DefaultUrlFetcher":                {1, "the URL starts with data: (tested case-insensitively just before); removing white space cannot shorten that 5-byte prefix, which contains none"},
 }
 
 // reasoned panics in scope: function -> why the panic cannot be reached from document text
 var c07PanicReasons = map[string]string{
-	"css/parser.Kind.String":                    "default of a switch over the Kind constants; every constant has a case (checked: rule C07.R5)",
-	"css/parser.(*tokenizer).consumeEscape":     "ParseInt of the digits captured by hexEscapeRe, 1 to 6 hexadecimal digits: cannot fail",
-	"css/parser.mustParseHexa":                  "only called on the capture groups of the hash colour regexps, 1 or 2 hexadecimal digits: ParseInt cannot fail",
-	"css/parser.ParseError.serializeTo":         "default of the switch over error kinds; every kind a tokenizer site builds has a case (rule C20.R3)",
+	"css/parser.Kind.String":                         "default of a switch over the Kind constants; every constant has a case (checked: rule C07.R5)",
+	"css/parser.(*tokenizer).consumeEscape":          "ParseInt of the digits captured by hexEscapeRe, 1 to 6 hexadecimal digits: cannot fail",
+	"css/parser.mustParseHexa":                       "only called on the capture groups of the hash colour regexps, 1 or 2 hexadecimal digits: ParseInt cannot fail",
+	"css/parser.ParseError.serializeTo":              "default of the switch over error kinds; every kind a tokenizer site builds has a case (rule C20.R3)",
 	"css/selector.relativePseudoClassSelector.Match": "default of the dispatch on the pseudo-class name; the parser only builds the names that have a case (rule C05.R1)",
-	"css/selector.attrSelector.Match":           "default of the dispatch on the operator; the parser only builds operators that have a case (rule C05.R1)",
-	"css/selector.combinedSelector.Match":       "default of the dispatch on the combinator; the parser only stores combinators that have a case (rule C05.R1)",
-	"css/selector.makeASCIISet":                 "called once, at package initialisation, on an ASCII constant",
-	"svg.newGradient":                           "only called for nodes whose tag was tested to be linearGradient or radialGradient by the caller's switch",
-	"svg.pathItem.endPoint":                     "default of a switch over the path operation enum; every operation the path parser emits has a case (rule C18.R1)",
-	"svg.pathItem.endAngle":                     "default of a switch over the path operation enum (see endPoint)",
-	"utils.toInt":                               "only called on capture groups of w3CDateRe, which are bounded runs of ASCII digits with an optional sign: Atoi cannot fail",
-	"css/properties.ContentProperty.AsStrings":  "content item built by the validator with the matching Go type for its Type tag",
+	"css/selector.attrSelector.Match":                "default of the dispatch on the operator; the parser only builds operators that have a case (rule C05.R1)",
+	"css/selector.combinedSelector.Match":            "default of the dispatch on the combinator; the parser only stores combinators that have a case (rule C05.R1)",
+	"css/selector.makeASCIISet":                      "called once, at package initialisation, on an ASCII constant",
+	"svg.newGradient":                                "only called for nodes whose tag was tested to be linearGradient or radialGradient by the caller's switch",
+	"svg.pathItem.endPoint":                          "default of a switch over the path operation enum; every operation the path parser emits has a case (rule C18.R1)",
+	"svg.pathItem.endAngle":                          "default of a switch over the path operation enum (see endPoint)",
+	"utils.toInt":                                    "only called on capture groups of w3CDateRe, which are bounded runs of ASCII digits with an optional sign: Atoi cannot fail",
+	"css/properties.ContentProperty.AsStrings":       "content item built by the validator with the matching Go type for its Type tag",
 }
 
 // reasoned unchecked assertions in scope
@@ -121,13 +121,13 @@ var c07AssertReasons = map[string]struct {
 	n      int
 	reason string
 }{
-	"css/validation.genericExpander$1$1":    {1, "results only holds pr.RawTokens on the !skipValidation path (the branch that stores default values sets skipValidation)"},
-	"css/validation._expandBorderImage":     {3, "each tokens[0].(pa.Literal) is the right operand of && after tokens[0].Kind() == pa.KLitteral"},
-	"html/tree.newComputedStyle":            {1, "custom properties (k.Var != \"\") are always stored as pr.RawTokens by validateNonShorthand"},
+	"css/validation.genericExpander$1$1":      {1, "results only holds pr.RawTokens on the !skipValidation path (the branch that stores default values sets skipValidation)"},
+	"css/validation._expandBorderImage":       {3, "each tokens[0].(pa.Literal) is the right operand of && after tokens[0].Kind() == pa.KLitteral"},
+	"html/tree.newComputedStyle":              {1, "custom properties (k.Var != \"\") are always stored as pr.RawTokens by validateNonShorthand"},
 	"html/tree.(*ComputedStyle).cascadeValue": {1, "declared values other than the Inherit/Initial markers and pending RawTokens, both resolved above, are CssProperty values"},
-	"html/tree.(*ComputedStyle).Get":        {2, "cascadeValue returns a CssProperty (it asserts it itself before returning)"},
-	"html/tree.textDecoration":              {2, "called for text-decoration-line only with values of that property, whose slot type is Decorations (rule C04.R2)"},
-	"html/tree.resolveVar":                  {2, "reached only after validation.HasVar(token) returned true: the token is a FunctionBlock whose first argument is an Ident"},
+	"html/tree.(*ComputedStyle).Get":          {2, "cascadeValue returns a CssProperty (it asserts it itself before returning)"},
+	"html/tree.textDecoration":                {2, "called for text-decoration-line only with values of that property, whose slot type is Decorations (rule C04.R2)"},
+	"html/tree.resolveVar":                    {2, "reached only after validation.HasVar(token) returned true: the token is a FunctionBlock whose first argument is an Ident"},
 }
 
 func c07(c *core.Check) {
